@@ -259,6 +259,15 @@ pub trait PostConversionLinter {
         args.iter().try_for_each(|e| self.visit_expression(e))
     }
 
+    /// Visits the subscripts on the left side of a property expression (`a(i).field`).
+    fn visit_property_base(&mut self, left_side: &Expression) -> Result<(), LintErrorPos> {
+        match left_side {
+            Expression::ArrayElement(_, args, _) => self.visit_expressions(args),
+            Expression::Property(inner, _, _) => self.visit_property_base(inner),
+            _ => Ok(()),
+        }
+    }
+
     fn visit_print(&mut self, print: &Print) -> Result<(), LintErrorPos> {
         if let Some(f) = &print.format_string {
             self.visit_expression(f)?;
